@@ -343,7 +343,8 @@ func loadFindings() *h.FindingsFile {
 }
 
 func shardSeed(i int) uint64 {
-	return (uint64(seed)*1000003 + uint64(i)) | 1
+	// 2*i keeps the shards' seeds distinct after the low bit is forced (rapid treats 0 as "random")
+	return (uint64(seed)*1000003 + 2*uint64(i)) | 1
 }
 
 func runStage(pl *plan, bin string, st stage, runDir string, m *merged, scale float64) int {
